@@ -39,7 +39,7 @@ Definition bw_flush (b : bw) : bw * bool :=
     else ({| w_buf := []; w_err := false; w_size := w_size b; w_dest := d |}, false)
   end.
 
-(* Write / WriteString (the destination is not an io.StringWriter) *)
+(* Write *)
 Fixpoint bw_write_loop (fuel : nat) (b : bw) (p : bytes) : bw * bytes :=
   match fuel with
   | O => (b, p)
@@ -60,6 +60,24 @@ Definition bw_write (b : bw) (p : bytes) : bw :=
   if w_err b then b
   else {| w_buf := w_buf b ++ firstn (Z.to_nat (available b)) p; w_err := false; w_size := w_size b; w_dest := w_dest b |}.
 
+(* WriteString when the destination is not an io.StringWriter (the case for every destination
+   used here): there is no direct write, the string goes through the buffer piece by piece *)
+Fixpoint bw_write_string_loop (fuel : nat) (b : bw) (p : bytes) : bw * bytes :=
+  match fuel with
+  | O => (b, p)
+  | S f =>
+    if (available b <? zlen p) && negb (w_err b) then
+      let n := Z.min (available b) (zlen p) in
+      let b1 := {| w_buf := w_buf b ++ firstn (Z.to_nat n) p; w_err := w_err b; w_size := w_size b; w_dest := w_dest b |} in
+      let '(b2, _) := bw_flush b1 in
+      bw_write_string_loop f b2 (skipn (Z.to_nat n) p)
+    else (b, p)
+  end.
+Definition bw_write_string (b : bw) (p : bytes) : bw :=
+  let '(b, p) := bw_write_string_loop (2 * length p + 3) b p in
+  if w_err b then b
+  else {| w_buf := w_buf b ++ firstn (Z.to_nat (available b)) p; w_err := false; w_size := w_size b; w_dest := w_dest b |}.
+
 (* WriteByte *)
 Definition bw_write_byte (b : bw) (c : N) : bw :=
   if w_err b then b
@@ -74,14 +92,14 @@ Definition bw_write_rune (b : bw) (enc : bytes) : bw :=
   else if available b <? 4 then
     let b := fst (bw_flush b) in
     if w_err b then b
-    else if available b <? 4 then bw_write b enc
+    else if available b <? 4 then bw_write_string b enc
     else {| w_buf := w_buf b ++ enc; w_err := false; w_size := w_size b; w_dest := w_dest b |}
   else {| w_buf := w_buf b ++ enc; w_err := false; w_size := w_size b; w_dest := w_dest b |}.
 
-Inductive wop := WWrite (p : bytes) | WByte (c : N) | WRune (enc : bytes).
-Definition wop_bytes (o : wop) : bytes := match o with WWrite p => p | WByte c => [c] | WRune e => e end.
+Inductive wop := WWrite (p : bytes) | WString (p : bytes) | WByte (c : N) | WRune (enc : bytes).
+Definition wop_bytes (o : wop) : bytes := match o with WWrite p => p | WString p => p | WByte c => [c] | WRune e => e end.
 Definition bw_step (b : bw) (o : wop) : bw :=
-  match o with WWrite p => bw_write b p | WByte c => bw_write_byte b c | WRune e => bw_write_rune b e end.
+  match o with WWrite p => bw_write b p | WString p => bw_write_string b p | WByte c => bw_write_byte b c | WRune e => bw_write_rune b e end.
 
 (* renderer.Render on a destination: all writes of the walk, then Flush; the error returned *)
 Definition render_to (size : Z) (limit : option Z) (ops : list wop) : dest * bool :=
